@@ -51,6 +51,60 @@ let of_chunk = function
   | TextChunk ls -> L [A "textchunk"; of_lines ls]
   | CodeChunk (s, w) -> L [A "codechunk"; of_lines s; of_lines w]
 
+(* ---- directive / run protocol ---- *)
+let to_value = function
+  | A "true" -> VBool true | A "false" -> VBool false
+  | L (A "set" :: xs) -> VSet (List.map to_str xs)
+  | _ -> raise (Bad "value")
+let of_value = function VBool b -> of_bool b | VSet s -> L (A "set" :: List.map of_str s)
+let to_dict x = to_list (to_pair to_str to_value) x
+let of_dict d = of_list (of_pair of_str of_value) d
+let to_reqtab x : (str * bool option) list =
+  to_list (function L [k; A "raise"] -> (to_str k, None) | L [k; v] -> (to_str k, Some (to_bool v)) | _ -> raise (Bad "reqtab")) x
+let requires_of tab (arg : str) : bool res =
+  let rec go = function
+    | [] -> Err (E_Need (Q_dirs [arg]))      (* reported as (need dirs (arg)) : a missing REQUIRES answer *)
+    | (k, v) :: t -> if eqb_str k arg then (match v with Some b -> Ok b | None -> Err E_Oracle) else go t in
+  go tab
+let to_mode = function A "exec" -> M_exec | A "eval" -> M_eval | A "single" -> M_single | _ -> raise (Bad "mode")
+let to_part = function
+  | L [A "part"; e; w; o; orig; ds; m] ->
+    { exec_lines = to_lines e; want_lines = to_lines w; line_offset = to_nat o; orig_lines = to_lines orig;
+      p_directives = to_list to_directive ds; compile_mode = to_mode m }
+  | _ -> raise (Bad "part")
+let to_ev = function
+  | A "notevaled" -> NotEvaled | A "reprraises" -> EvalReprRaises
+  | L [A "repr"; r] -> EvalRepr (to_str r) | _ -> raise (Bad "got_eval")
+let to_outcome = function
+  | L [A "ok"; o; ev] -> O_ok (to_str o, to_ev ev)
+  | L [A "raise"; o; l; f] -> O_raise (to_str o, to_str l, to_bool f)
+  | L [A "exit"; o] -> O_exit (to_str o)
+  | A "compile" -> O_compile_error
+  | A "loop" -> O_existing_loop
+  | L [A "base"; o] -> O_base (to_str o)
+  | _ -> raise (Bad "outcome")
+let to_config = function
+  | L [oe; py; ds; rk; imp] ->
+    { c_on_error = (match oe with A "return" -> OE_return | A "raise" -> OE_raise | _ -> raise (Bad "on_error"));
+      c_pytest_mode = to_bool py; c_default_state = to_dict ds; c_report_key = to_str rk; c_import_ok = to_bool imp }
+  | _ -> raise (Bad "config")
+let of_failure = function
+  | F_directive -> A "directive" | F_import -> A "import" | F_compile -> A "compile" | F_gotwant -> A "gotwant"
+  | F_extract_repr -> A "extractrepr" | F_exception -> A "exception" | F_existing_loop -> A "loop"
+let of_rstate st =
+  L [of_list of_nat st.r_skipped; of_list of_nat st.r_executed; of_list of_nat st.r_checked;
+     of_list (of_pair of_nat of_str) st.r_logged; of_lines st.r_unmatched;
+     (match st.r_failed with
+      | None -> A "none"
+      | Some (None, f) -> L [A "some"; A "import"; of_failure f]
+      | Some (Some i, f) -> L [A "some"; of_nat i; of_failure f])]
+let outcome_fun (ocs : outcome list) (i : nat) : outcome =
+  let rec go l k = match l, k with
+    | x :: _, O -> x
+    | _ :: t, S k' -> go t k'
+    | [], _ -> O_ok ([], NotEvaled) in
+  go ocs i
+
 (* ---------- dispatch ---------- *)
 let dispatch_ref : (string -> sx list -> sx) ref = ref (fun _ _ -> raise (Bad "no dispatch"))
 
@@ -169,6 +223,45 @@ let dispatch (fn : string) (args : sx list) : sx =
      | Parsed items -> L [A "parsed"; of_list of_item items]
      | ParseError (fp, e) -> L [A "parseerror"; of_fp fp; of_perr e]
      | NeedOracle q -> of_query q)
+  (* Text / Directive / RunLoop *)
+  | "dedent", [s] -> of_str (dedent (to_str s))
+  | "codeblock", [s] -> of_str (codeblock (to_str s))
+  | "indent_text", [p; s] -> of_str (indent_text (to_str p) (to_str s))
+  | "extract_exc_want", [s] -> of_opt of_str (extract_exc_want (to_str s))
+  | "check_exception", [fl; g; w] -> of_opt of_bool (check_exception (to_flags fl) (to_str g) (to_str w))
+  | "has_any_code", [ls] ->
+    of_bool (has_any_code { exec_lines = to_lines ls; want_lines = []; line_offset = O; orig_lines = [];
+                            p_directives = []; compile_mode = M_exec })
+  | "part_check", [fl; w; um; g; ev] ->
+    A (match part_check (to_flags fl) (to_str w) (to_lines um) (to_str g) (to_ev ev) with
+        | GW_ok -> "ok" | GW_gotwant -> "gotwant" | GW_extract_repr -> "extractrepr" | GW_repr_escapes -> "represcapes")
+  | "rs_trace", [ds0; rk; reqtab; updates] ->
+    (* RuntimeState(ds0), set_report_style, then update(...) for each directive list:
+       after each update the merged to_dict() and the skip test, or the error *)
+    let req = requires_of (to_reqtab reqtab) in
+    let rs0 = rs_init (to_dict ds0) in
+    let rs0 = (match rk with A "none" -> rs0 | _ -> { rs_global = set_report_style rs0.rs_global (to_str rk); rs_inline = rs0.rs_inline }) in
+    let merged rs = List.fold_left (fun d (k, v) -> Xdmodel_core.dset k v d) rs.rs_global rs.rs_inline in
+    let rec go rs = function
+      | [] -> []
+      | u :: rest ->
+        (match rs_update req rs (to_list to_directive u) with
+         | UOk rs' -> L [A "ok"; of_dict (merged rs'); of_bool (rs_skips rs'); of_dict rs'.rs_global] :: go rs' rest
+         | UErr U_KeyError -> [A "keyerror"]
+         | UErr U_AttributeError -> [A "attributeerror"]
+         | UErr U_Requires -> [A "requireserror"]
+         | UNeed q -> [of_query q]) in
+    L (go rs0 (to_list (fun x -> x) updates))
+  | "run", [cfg; reqtab; ocs; parts] ->
+    let req = requires_of (to_reqtab reqtab) in
+    let ocl = to_list to_outcome ocs in
+    (match run req (to_config cfg) (outcome_fun ocl) (to_list to_part parts) with
+     | R_summary (sm, st) -> L [A "summary"; of_bool sm.s_passed; of_bool sm.s_failed; of_bool sm.s_skipped; of_rstate st]
+     | R_raised (f, st) -> L [A "raised"; of_failure f; of_rstate st]
+     | R_base st -> L [A "base"; of_rstate st]
+     | R_no_frame st -> L [A "noframe"; of_rstate st]
+     | R_pytest_skip st -> L [A "pytestskip"; of_rstate st]
+     | R_need q -> of_query q)
   | _ -> raise (Bad ("unknown function " ^ fn))
 
 
